@@ -108,7 +108,8 @@ impl<'r> Pure<'r> {
                 bin(op, l, r)
             }
             7 | 8 => {
-                let op = *self.rng.pick(&["shl", "shr"]);
+                // `>>>` is not an operator of the language: it must be refused, never folded as `>>`
+                let op = *self.rng.pick(&["shl", "shr", "shl", "shr", "shl", "shr", "ushr"]);
                 let l = self.int(d);
                 let r = if self.rng.chance(3, 4) { int(self.rng.below(66) as u64) } else { self.int(d) };
                 bin(op, l, r)
